@@ -240,6 +240,16 @@ pub fn drive_builder(a: &Args) {
                 calls.push(Call::Fin(s));
             }
         }
+        // some calls are made twice (marking a state final twice, giving the same transition twice): idempotent
+        if rng.coin(1, 3) && calls.len() > 2 {
+            for _ in 0..rng.range(1, 3) {
+                let i = 1 + rng.below(calls.len() as u64 - 1) as usize;
+                if matches!(calls[i], Call::Fin(_) | Call::Add(..)) {
+                    let c = calls[i].clone();
+                    calls.push(c);
+                }
+            }
+        }
         // shuffle everything after new (call order across states is free)
         for k in (2..calls.len()).rev() {
             let j = 1 + rng.below(k as u64) as usize;
@@ -273,6 +283,19 @@ pub fn drive_builder(a: &Args) {
                 out.emit(builder_record(&calls, ""));
             }
         }
+    }
+    // every kind of repeated call on a small complete specification: final mark twice / three times, the same
+    // transition twice, the same default twice
+    for dup in 0..5u32 {
+        let mut calls = vec![Call::New(0), Call::Add(0, 0x61, 0x61, 1), Call::Def(0, 0), Call::Def(1, 1), Call::Fin(1)];
+        match dup {
+            0 => calls.push(Call::Fin(1)),
+            1 => { calls.push(Call::Fin(1)); calls.push(Call::Fin(1)); calls.push(Call::Fin(0)); calls.push(Call::Fin(0)); }
+            2 => calls.push(Call::Add(0, 0x61, 0x61, 1)),
+            3 => calls.push(Call::Def(1, 1)),
+            _ => { calls.insert(1, Call::Fin(0)); calls.push(Call::Fin(0)); }
+        }
+        out.emit(builder_record(&calls, ""));
     }
     // conflicting labels in every shape of overlap, added at the beginning / in the middle / at the end of a
     // complete specification: identical interval, nested, spanning two, touching one character at 0 / at MAX_CHAR
